@@ -722,6 +722,29 @@ def judge_cells(chk, obs, rep, items, M_np, U):
             return ("broken", "error-above-instance-bound",
                     f"||U - circuit||_F = {F:.6g} exceeds ||U - Q·u||_F + ||u - diag(phases)||_F = {bound:.6g} computed by "
                     f"the model from the same blocks (decomposition_error_bound, before its last inequality)")
+    # --- the constraint loop tries the entries IN ORDER (constraints_tried_in_order): an earlier entry that imposes every
+    # parameter is decided without the minimiser (accepted iff |equation| <= precision at its values), so if it was
+    # acceptable for a cell, the block of that cell must carry its values ---------------------------------------------
+    if spec.get("constraints") and not (v or h) and obs.get("free") is not None:
+        cons = spec["constraints"]
+        for c, it in zip(solved, blocks):
+            a, b = unc(c[3]), unc(c[4])
+            vals = block_values(it, obs["free"])
+            idx = next((k for k, e in enumerate(cons) if entry_matches(e, vals)), None)
+            if idx is None:
+                continue          # reported as constraint-not-respected by the caller
+            for k in range(idx):
+                e = cons[k]
+                if len(e) == 0 or not all(x is not None for x in e):
+                    continue
+                B = block_unitary(spec["block"], e)
+                r_e = abs(np.conj(B[0, 0]) * a + np.conj(B[1, 0]) * b)
+                if r_e < prec * (1 - 1e-3) - 1e-12:
+                    return ("broken", "constraint-order",
+                            f"cell (j={c[0]}, n={c[1]}): constraint #{k} {e} imposes every parameter and nulls the entry "
+                            f"(|equation| = {r_e:.3g} <= precision) but the block carries {vals}, matching only entry "
+                            f"#{idx}: the entries are not tried in the listed order")
+                hit(chk, obs, "earlier-full-constraint-rejected")
     # --- target 1: the optimiser's parameters against the closed form -------------------------------------------
     if spec["block"] in UNIVERSAL and not (v or h) and len(obs.get("free", [])) == 2:
         for c, it in zip(solved, blocks):
@@ -1815,7 +1838,7 @@ def run(chk: core.Check):
                              "closed-form-compared:bs_ps", "closed-form-compared:mzi_last",
                              "closed-form-compared:bs_ps/generated", "closed-form-compared:mzi_last/generated",
                              # the perturbation bound evaluated on the instance
-                             "bound-compared",
+                             "bound-compared", "earlier-full-constraint-rejected/generated",
                              # the glue of Circuit.decomposition: every outcome of its control flow
                              "glue:ValueError", "glue:AssertionError", "glue:NotImplementedError", "glue:None",
                              "glue:circuit", "glue:allow-error", "glue:max-try-zero",
